@@ -246,7 +246,17 @@ fn stage_rpc_frames(tier: Tier, st: &mut Stats) {
     }
     for (desc, input) in inputs {
         let i2 = input.clone();
+        // a message whose prefix or body is cut short, or that is larger than the maximum, cannot be delivered
+        let declared = if input.len() >= 4 { Some(u32::from_le_bytes([input[0], input[1], input[2], input[3]]) as usize) } else { None };
+        let must_fail = match declared {
+            None => true,
+            Some(l) => l > max || input.len() - 4 < l,
+        };
+        let accepted = Arc::new(std::sync::atomic::AtomicBool::new(false));
+        let acc2 = accepted.clone();
+        let desc2 = desc.clone();
         let ok = stage_case(st, "rpc_frame", format!("frame::mux_recv_proto(max_size={max}) on a mux sub-stream fed {desc}"), json!({"harness":"c10-rpc-frame","input_hex":hex(&input)}), max + (512 << 10), move || {
+            let accepted = acc2;
             on_rt(|root, _idle, _clock| {
                 Box::pin(async move {
                     let (pa, pb) = pipe::pair();
@@ -279,12 +289,18 @@ fn stage_rpc_frames(tier: Tier, st: &mut Stats) {
                     })
                     .await;
                     match r {
-                        Ok(x) => x.map(|_| ()),
+                        Ok(x) => {
+                            accepted.store(x.is_ok(), std::sync::atomic::Ordering::SeqCst);
+                            x.map(|_| ())
+                        }
                         Err(e) => Err(format!("{e:?}")),
                     }
                 })
             })
         });
+        if must_fail && accepted.load(std::sync::atomic::Ordering::SeqCst) {
+            st.viol.entry("rpc_frame_accepted".into()).or_insert((format!("[rpc_frame_accepted] frame::mux_recv_proto(max_size={max}) delivered a message although the sub-stream carried {desc2} (truncated or oversized)"), json!({"harness":"c10-rpc-frame","input_hex":hex(&input)})));
+        }
         if !ok {
             break;
         }
